@@ -90,6 +90,17 @@ impl Error for SvgdxError {
 }
 
 impl SvgdxError {
+    /// True if this error (or any error it aggregates) reports an exceeded limit.
+    pub fn is_limit_error(&self) -> bool {
+        match self {
+            SvgdxError::VarLimitError(..)
+            | SvgdxError::LoopLimitError(..)
+            | SvgdxError::DepthLimitExceeded(..) => true,
+            SvgdxError::MultiError(errors) => errors.values().any(|(_, e)| e.is_limit_error()),
+            _ => false,
+        }
+    }
+
     pub fn from_err<T>(err: T) -> SvgdxError
     where
         T: std::error::Error + 'static,
